@@ -38,4 +38,16 @@ TEXTS = {
         "note": "Expected sets are known by construction; token comparison of generics/where-clause after canonical printing.",
         "technique": "property-based testing with planted ground truth (proptest bytes -> type grammar)",
     },
+    "C11": {
+        "level": "Exhaustive over every integer in [-70000, 70000] and every 8..128-bit boundary +-2, quoted and unquoted, into all 24 integer targets (7*10^6 conversions per run), plus random radix/underscore/suffix/sign literals up to 45 digits, float strings and literals (bit-exact), bool/char/String/PathBuf spellings and wrong literal kinds; oracle is the target type's own str::parse.",
+        "ref": "DESIGN.md section 3 C11",
+        "note": "An unquoted integer literal into a float target and a negative literal that syn delivers as a unary expression may only fail or give exactly the denoted value.",
+        "technique": "exhaustive enumeration + property-based testing, differential against std::str::FromStr",
+    },
+    "C14": {
+        "level": "Generated item lists (0..12 items, controlled key repetition incl. a::b vs ::a::b, multi-segment keys, literal items, bad values) into all five map instantiations x five value types, against a list model of the error leaves and a differential check of every entry against the element type's own conversion; hash and ordered maps compared on the same input.",
+        "ref": "DESIGN.md section 3 C14",
+        "note": "Leaves are recognised by their fixed message prefixes and location path.",
+        "technique": "property-based testing against a list model + differential (hash vs btree, entry vs element conversion)",
+    },
 }
